@@ -312,6 +312,20 @@ def impl_run(case):
             ob = W.guarded(lambda: quantity.Quantity('1 ' + s))
             ps.append(ob['cls'] if ob['k'] == 'qty' else ob.get('e'))
         res = {'k': 'dir', 'us': us, 'cs': cs, 'parse': ps}
+    elif q['k'] == 'rate':
+        from .qtyops import _num
+
+        def thunk():
+            from quantity.money import ExchangeRate
+            ru, mult, rt, amt = q['r']
+            rate = ExchangeRate(im.units[ru], _num(mult), im.units[rt], _num(amt))
+            x = im.opd(q['x'])
+            if q['o'] == 'mul':
+                return x * rate
+            if q['o'] == 'rmul':
+                return rate * x
+            return x / rate
+        res = observe(thunk)
     elif q['k'] == 'mk':
         n, u = W.number(tuple(q['n'])), im.units.get(q['u'])
         if q.get('via'):
@@ -480,6 +494,11 @@ def coq_case(case, r):
     elif q['k'] == 'dir':
         qt = (f"(QDir {clist([cn(ids.s(s)) for s in q['syms']])} "
               f"{clist([cn(ids.c(c)) for c in q['clss']])})")
+    elif q['k'] == 'rate':
+        ru, mult, rt, amt = q['r']
+        x = q['x']
+        qt = (f"(QRate {cbool(q['o'] != 'div')} {cq(num_value(x[1]))} {cn(ids.s(x[2]))} "
+              f"{cn(ids.s(ru))} {cq(num_value(mult))} {cn(ids.s(rt))} {cq(num_value(amt))})")
     else:
         qt = (f"(QMk {cq(num_value(q['n']))} {cn(ids.s(q['u']))} "
               f"{copt(q.get('via'), lambda c: cn(ids.c(c)))})")
